@@ -19,7 +19,12 @@ vars == <<row>>
 Fuel == 40
 Host == <<<<"t", <<"log">>>>>>
 
-Sources == << I(5), I(0), I(65534), I(65535), I(70000), I(-3), F(3, 2), F(5, 2), S(<<115>>) >>
+Sources0 == << I(5), I(0), I(65534), I(65535), I(70000), I(-3), F(3, 2), F(5, 2), S(<<115>>) >>
+\* thorough: more boundaries, an empty and a longer string, a boolean (every mutation of it is an error)
+Sources == IF Tier = "thorough"
+           THEN Sources0 \o << I(1), I(-1), I(2), I(255), I(256), I(65533), I(65536), I(1000000), I(-70000),
+                                F(1, 2), F(-7, 2), F(1, 4), F(131071, 2), S(<<>>), S(<<97, 98>>), S(<<48>>), B(TRUE) >>
+           ELSE Sources0
 Muts    == << <<"post", "++">>, <<"post", "--">>, <<"casg", "+=">>, <<"casg", "-=">>, <<"casg", "*=">>, <<"casg", "/=">> >>
 
 \* the statement which mutates variable n; strings are only concatenated
@@ -58,14 +63,25 @@ Shape(sh, src, m) ==
                     Asg("arr", Arr(<<L(src)>>)), Asg("r", CallE("f", <<BinE("[]", Ref("arr"), LitI(0))>>)),
                     Ret(Arr(<<BinE("[]", Ref("arr"), LitI(0)), Ref("r"), L(src)>>))>>
 
+\* thorough: after every mutation of a variable a second mutation m2 of the same variable
+RECURSIVE Again(_, _, _)
+Again(stmts, m2, src) ==
+  IF Len(stmts) = 0 THEN <<>>
+  ELSE LET st == stmts[1]  rest == Again(Tail(stmts), m2, src) IN
+       CASE st[1] \in {"post", "casg"} -> <<st, MutStmt(m2, st[3], src)>> \o rest
+         [] st[1] = "func" -> <<<<"func", st[2], st[3], Again(st[4], m2, src)>>>> \o rest
+         [] st[1] = "foreach" -> <<<<"foreach", st[2], st[3], st[4], Again(st[5], m2, src)>>>> \o rest
+         [] st[1] = "while" -> <<<<"while", st[2], Again(st[3], m2, src)>>>> \o rest
+         [] OTHER -> <<st>> \o rest
+
 RECURSIVE RunSeq(_, _, _, _, _)
 RunSeq(prog, obj, n, i, g) ==
   IF i > n THEN <<>>
   ELSE LET r == RunProgram(prog, g, obj, Host, Fuel) IN
        <<[obj |-> obj, exp |-> [out |-> r.out, calls |-> r.calls, vars |-> r.g]]>> \o RunSeq(prog, obj, n, i + 1, r.g)
 
-Row(sh, src, m) ==
-  LET prog == Shape(sh, src, m)
+Row(sh, src, m, m2) ==
+  LET prog == IF m2 = 0 THEN Shape(sh, src, m) ELSE Again(Shape(sh, src, m), Muts[m2], src)
       obj  == IF sh = 7 THEN <<<<"F1", src>>>> ELSE <<>>
   IN [k |-> "alias", sh |-> sh, prog |-> prog, fns |-> Host, vars |-> <<>>, errvars |-> TRUE,
       runs |-> RunSeq(prog, obj, 3, 1, <<>>), done |-> TRUE]
@@ -73,7 +89,9 @@ Row(sh, src, m) ==
 Init == \E sh \in 1..NShapes, s \in 1..Len(Sources) : row = [k |-> "a0", sh |-> sh, src |-> Sources[s], done |-> FALSE]
 
 Next == /\ ~row.done
-        /\ \E m \in 1..Len(Muts) : row' = Row(row.sh, row.src, Muts[m])
+        /\ \E m \in 1..Len(Muts), m2 \in 0..Len(Muts) :
+             /\ (Tier = "thorough" \/ m2 = 0)
+             /\ row' = Row(row.sh, row.src, Muts[m], m2)
 
 Spec == Init /\ [][Next]_vars
 
